@@ -3,6 +3,9 @@ package checks
 import (
 	"encoding/json"
 	"fmt"
+	"github.com/vektah/gqlparser/v2/parser"
+	"github.com/vektah/gqlparser/v2/validator"
+	"github.com/vektah/gqlparser/v2/validator/rules"
 	"math/rand"
 	"strconv"
 
@@ -222,6 +225,18 @@ func projectWithLinks(schema *ast.Schema, doc *ast.QueryDocument) ([]GT, []LinkF
 	return out, lp.facts
 }
 
+// rule subsets under which the links must be the same (an empty non-nil list = no rule at all)
+var linkRuleSubsets = []struct {
+	name  string
+	rules []validator.Rule
+}{
+	{"no rules", []validator.Rule{}},
+	{"only KnownTypeNames and ScalarLeafs (no value or directive observer)", []validator.Rule{rules.KnownTypeNamesRule, rules.ScalarLeafsRule}},
+	{"only NoUnusedVariables", []validator.Rule{rules.NoUnusedVariablesRule}},
+	{"only KnownDirectives", []validator.Rule{rules.KnownDirectivesRule}},
+	{"only FieldsOnCorrectType and OverlappingFieldsCanBeMerged", []validator.Rule{rules.FieldsOnCorrectTypeRule, rules.OverlappingFieldsCanBeMergedRule}},
+}
+
 var handLinkDocs = []string{
 	`{ u { ... on A { x } } }`, `{ u { __typename ... on B { y } } }`, `{ i { x ... on A { z } } ...F } fragment F on Query { s a { ...G } } fragment G on A { o { y } }`,
 	`query($v: Int, $l: [Int]) { f(i: $v, l: [1, $v], ll: [[$v], $l], o: {a: $v, b: [$v, 2], r: 1}, nn: 1) }`,
@@ -298,6 +313,24 @@ func checkC09(c *core.Ctx) {
 			b, _ := json.Marshal(map[string]any{"id": id, "doc": gtNorm(tree), "links": facts})
 			lines = append(lines, b)
 			events = append(events, int64(len(facts)))
+			// the links are written by the walk, whatever rules listen: the same document validated
+			// on a fresh parse with a subset of the rules (none, no value-observing rule, no
+			// directive-observing rule, ...) must carry the same links
+			if id%3 == 0 {
+				sub := linkRuleSubsets[(id/3)%len(linkRuleSubsets)]
+				if d2, err := parser.ParseQuery(&ast.Source{Input: text, Name: "q.graphql"}); err == nil {
+					func() {
+						defer guard("validator.Validate with "+sub.name, text)()
+						validator.Validate(schema, d2, sub.rules...)
+					}()
+					tree2, facts2 := projectWithLinks(schema, d2)
+					id++
+					b2, _ := json.Marshal(map[string]any{"id": id, "doc": gtNorm(tree2), "links": facts2})
+					lines = append(lines, b2)
+					events = append(events, int64(len(facts2)))
+					docs[id] = text + "   [validated with " + sub.name + "]"
+				}
+			}
 			docs[id] = text
 			if len(o.Doc.Fragments) > 0 || len(facts) > 12 {
 				nontrivial++
